@@ -1,7 +1,7 @@
 """C02 — vector operators and reductions act element-wise on every vector type (DESIGN §6 C02)."""
 import core
 
-OPS_Z = ["ew1", "ew2", "ew3", "map", "ctor_v", "cmp", "minmax", "reduce_i", "arith_i"]
+OPS_Z = ["ew1", "ew2", "ew3", "map", "ctor_v", "ctor_chunks", "cmp", "minmax", "reduce_i", "arith_i"]
 
 
 def key(rec):
